@@ -70,22 +70,22 @@ const (
 )
 
 type F struct {
-	Go    string // Go field name
-	JSON  string // name in the json tag ("" = none)
-	Omit  bool   // omitempty present
-	Extra string // other tag options, e.g. "string"
-	OmitFirst bool // omitempty placed before Extra
-	Excl  int
-	Embedded bool
-	T     *T
+	Go        string // Go field name
+	JSON      string // name in the json tag ("" = none)
+	Omit      bool   // omitempty present
+	Extra     string // other tag options, e.g. "string"
+	OmitFirst bool   // omitempty placed before Extra
+	Excl      int
+	Embedded  bool
+	T         *T
 }
 
 type T struct {
-	K      Kind
-	Elem   *T
-	Fields []*F
-	N      int    // array length
-	Name   string // non-empty: named (static) type
+	K        Kind
+	Elem     *T
+	Fields   []*F
+	N        int          // array length
+	Name     string       // non-empty: named (static) type
 	RTStatic reflect.Type // for static types: the real Go type
 
 	once sync.Once
@@ -498,7 +498,7 @@ func genType(r *rand.Rand, o TypeOpts, depth int) *T {
 }
 
 // Leaf returns a leaf T of kind k.
-func Leaf(k Kind) *T { return &T{K: k} }
+func Leaf(k Kind) *T  { return &T{K: k} }
 func SliceOf(e *T) *T { return &T{K: KSlice, Elem: e} }
 func MapOf(e *T) *T   { return &T{K: KMap, Elem: e} }
 func PtrTo(e *T) *T   { return &T{K: KPtr, Elem: e} }
